@@ -114,6 +114,13 @@ def ob_model(tomo, sysname, m, flag, tester, variant):
         out = [Holds("one column per variable", A.shape[1] == nv and qt.num_variables == nv),
                Holds("one row per (schedule, outcome)", A.shape[0] == len(flat_ref) and len(b) == len(flat_ref)),
                Eq("A x + b == Born probabilities in (schedule, outcome) order", model, np.array(flat_ref, dtype=object), 1e-8)]
+        # per-schedule accessors: block j of the stacked model (the testers may have different outcome counts)
+        pos = 0
+        for j, ps in enumerate(ref):
+            k = len(ps)
+            out.append(Eq(f"get_coeffs_1st_mat({j}) == rows of matA of schedule {j}", qt.get_coeffs_1st_mat(j), np.asarray(A, dtype=object)[pos:pos + k], 0.0))
+            out.append(Eq(f"get_coeffs_0th_vec({j}) == entries of vecB of schedule {j}", qt.get_coeffs_0th_vec(j), np.asarray(b, dtype=object)[pos:pos + k], 0.0))
+            pos += k
         return out
     return FnOb(reals("x", nv, -10.0, 10.0), run)
 
